@@ -332,7 +332,7 @@ def rule_R5(P, rep):
     cbs = [("ythread_callback_yield_impl", "&%s->thread"), ("ABTI_ythread_callback_thread_yield_to", "&%s->thread"),
            ("ABTI_ythread_callback_resume_yield_to", "&%s->p_prev->thread")]
     for cb, caller in cbs:
-        F = P.fn(cb, "src/ythread.c")
+        F = P.fn(cb, "src/ythread.c", flat=True)
         caller = caller % F.params[0]["n"]
         sel = seq.Sel(calls={"ABTI_pool_add_thread", "ABTI_pool_push", "ABTI_thread_handle_request"}, conds=conds, canon=True)
         kinds = set()
